@@ -40,7 +40,7 @@ use crate::rule_catalog::RuleCatalog;
 use crate::schema::{RelationSchema, SchemaCatalog, ValidationEngine};
 use crate::statement::{RuleDef, SerializableBodyPred};
 use crate::storage::persist::{
-    consolidate_to_current, to_tuples, FilePersist, PersistBackend, PersistConfig, Update,
+    replay_to_current_set, FilePersist, PersistBackend, PersistConfig, Update,
 };
 use crate::storage::{
     KnowledgeGraphMetadata, KnowledgeGraphsMetadata, StorageError, StorageResult,
@@ -1742,12 +1742,10 @@ impl StorageEngine {
                 // Get shard info to determine since frontier
                 let info = self.persist.shard_info(&shard_name)?;
 
-                // Read and consolidate updates
-                let mut updates = self.persist.read(&shard_name, info.since)?;
-                consolidate_to_current(&mut updates);
-
-                // Extract current tuples (positive multiplicities only)
-                let tuples = to_tuples(&updates);
+                // Read the shard's updates and replay them with the set semantics the
+                // running engine applied them with (see replay_to_current_set)
+                let updates = self.persist.read(&shard_name, info.since)?;
+                let tuples = replay_to_current_set(&updates);
 
                 if !tuples.is_empty() {
                     // Infer schema from first tuple
